@@ -2017,9 +2017,20 @@ func (se *symExec) evalCallMulti(call *ast.CallExpr, st *sstate) []pathResult {
 		c.st.seq++
 		c.st.calls = append(c.st.calls, callRec{callee: name, args: c.args, recv: c.recv, pos: call.Pos(), seq: c.st.seq})
 		// a trivial getter of another package: `func (l *List) Len() int { return len(l.Items) }`
+		// the results of the k-th call of one callee on this path are told apart from those of the first
+		ord := 0
+		for _, prev := range c.st.calls[:len(c.st.calls)-1] {
+			if prev.callee == name {
+				ord++
+			}
+		}
 		var rets []val
 		for i := 0; i < nres; i++ {
-			rets = append(rets, unk(fmt.Sprintf("%s#%d", name, i)))
+			if ord > 0 {
+				rets = append(rets, unk(fmt.Sprintf("%s#%d'%d", name, i, ord+1)))
+			} else {
+				rets = append(rets, unk(fmt.Sprintf("%s#%d", name, i)))
+			}
 		}
 		if ov, ok := se.callOverride[name]; ok && nres >= 1 {
 			rets[0] = ov
